@@ -309,7 +309,8 @@ Definition expected_width (f : fn) : option Z :=
   match f with
   | FNumber mn mx step =>
     match randrange_n mn (mx + 1) step with Ok n => Some n | Err _ => None end
-  | FChoice (RCList (_ :: _ as opts)) => Some (Z.of_nat (length opts))
+  | FChoice (RCList opts) =>
+    match opts with [] => None | _ :: _ => Some (Z.of_nat (length opts)) end
   | _ => None
   end.
 
